@@ -3,7 +3,10 @@
 \* covariance s^2 (J^T J)^-1, s^2 = RSS / (n - p), in rationals (J is the Vandermonde matrix).
 EXTENDS PolyFit, Json
 VARIABLE c
-Grids == {[k \in 1..6 |-> R(k - 3)], [k \in 1..7 |-> Norm(k, 8)], [k \in 1..5 |-> Norm(2 * k - 1, 16)]}
+\* the last two windows lie to one side of the origin with abscissae above 1: the normal matrix then needs row interchanges in
+\* a cyclic order when it is solved by LU (three parameters)
+Grids == {[k \in 1..6 |-> R(k - 3)], [k \in 1..7 |-> Norm(k, 8)], [k \in 1..5 |-> Norm(2 * k - 1, 16)],
+          [k \in 1..7 |-> Norm(k, 2)], [k \in 1..5 |-> R(k + 1)]}
 Ys(n, v) == [i \in 1..n |-> R(((i * i * v + 2 * i) % 7) - 3)]
 Init == \E g \in Grids, v \in 1..2, d \in 0..2 : c = [x |-> g, y |-> Ys(Len(g), v), d |-> d]
 Next == UNCHANGED c
